@@ -60,6 +60,19 @@ func logErrors() string {
 	return e
 }
 
+// logFailure turns an error line nbio logged (its recover() blocks report swallowed panics this
+// way) into a failure with a signature that names the place.
+func (w *world) logFailure() {
+	e := logErrors()
+	switch {
+	case e == "":
+	case strings.Contains(e, "execute ParserCloser failed") && strings.Contains(e, "interface is nil"):
+		w.failf("recovered-panic DataHandler nil-session|nbhttp.Engine.DataHandler panicked (recovered and logged): %s. The connection's session is nil: Upgrade had installed the websocket.Conn as session, failed to write the 101 response (the peer was gone) and cleared the session again (clearNBCWSSession) while the poller was delivering bytes the client had sent after its upgrade request; `c.Session().(ParserCloser)` is a single-value type assertion, which panics on a nil interface before the nil check that follows it can run", e)
+	default:
+		w.failf("logged-error|nbio logged an error (a recovered panic?): %s", e)
+	}
+}
+
 // check is the terminal-state oracle shared by all scenarios: nobody may be parked on a mutex
 // forever, and no harness thread (main, client, writer, closer, feeder) may still be blocked.
 func check(r *vsched.Result) string {
